@@ -287,7 +287,6 @@ CAUSE_WHAT = {
     'IsinstanceAsym': "SMPose.__mul__/__truediv__ test isinstance(left, right.__class__) while _op2 tests the opposite direction: SE3*SO3, SE3/SO3, SE2*SO2, SE2/SO2 return the identity",
     'UserListAdd': "Twist2/Twist3/Plucker inherit UserList.__add__ (list concatenation): + with an operand whose elements have the same shape returns an object holding the other operand's elements",
     'UserListRepeat': "spatial-vector classes inherit UserList.__mul__: SpatialVelocity * int is list repetition",
-    'TwistRmulMulti': "Twist2/Twist3.__rmul__ multiply right.S, which is a Python list for a multi-valued twist: int * twist repeats the list (float * twist raises)",
     'DQMulNone': "DualQuaternion.__mul__ has no else branch: DualQuaternion * anything else returns None",
     'UserListEq': "spatial vectors and SpatialInertia inherit UserList.__eq__: == / != of two objects of one class raises (truth value of an array)",
     'PluckerEqMulti': "Plucker.__eq__/__ne__ compare first elements only: one bool for multi-valued operands instead of a list",
